@@ -346,9 +346,53 @@ ALT_ARGS = {
 }
 
 
-def programs(tier):
+MENU_SIZE = {"flip": 2, "categorical": 3, "normal": 3, "exponential": 2, "mvn": 2, "mynormal": 3, "uniform": 2}
+
+
+def tree_size(name):
+    """Number of leaves of the full simulate choice tree (product of menu sizes over element sites)."""
+    from mc import ref as R
+    from checks.c01 import _all_sites
+
+    prog, argsl, _t = FAMILY[name]
+    # element sites: evaluate the reference on a dummy choice map is overkill; count statically via lanes
+    n = 1
+    import numpy as _np
+
+    def count(p, mult):
+        nonlocal n
+        from mc.lang import Site, Call, VmapCall, ScanCall, CondCall
+
+        for st in p.body:
+            if isinstance(st, Site):
+                n *= MENU_SIZE[st.dist] ** mult
+            elif isinstance(st, Call):
+                count(st.prog, mult)
+            elif isinstance(st, VmapCall):
+                lanes = st.axis_size or LANES.get(name, 2)
+                if isinstance(st.callee, str):
+                    n *= MENU_SIZE[st.callee] ** (mult * lanes)
+                else:
+                    count(st.callee, mult * lanes)
+            elif isinstance(st, ScanCall):
+                count(st.prog, mult * st.length)
+            elif isinstance(st, CondCall):
+                count(st.pt, mult)
+                count(st.pf, mult)
+
+    count(prog, 1)
+    return n
+
+
+LANES = {"vmap_axis1_wide": 3}
+VECTOR_SITES = {"vecparam": 2, "vecscale": 2, "vmap_axis1": 2, "vmap_axis1_wide": 2}
+
+
+def programs(tier, max_tree=None):
     out = []
     for name, (prog, argsl, t) in FAMILY.items():
         if tier == "thorough" or t == "quick":
+            if max_tree is not None and tree_size(name) * (3 ** (VECTOR_SITES.get(name, 1) - 1)) ** (LANES.get(name, 2) if "vmap" in name else 1) > max_tree:
+                continue
             out.append(name)
     return out
